@@ -657,7 +657,7 @@ fn mcp_one(tool: &str, args: Value) -> Result<Result<String, String>, String> {
 
 // ----- C05: no report, partial or otherwise, from any front-end when a sale is uncovered -----
 
-const RULE_C05_FRONT: &str = "process level: accepted ledgers and broken variants (C05 mutations) through `cgt-tool report` in plain/json/pdf with and without --output, and through MCP calculate_report; covered => success with output; uncovered => non-zero exit, empty stdout, no --output file, error naming security and ISO date, MCP error response; non-trivial = the ledger is uncovered; distinct by DSL hash";
+const RULE_C05_FRONT: &str = "process level: accepted ledgers and broken variants (C05 mutations) through `cgt-tool report` in plain/json/pdf with and without --output, and through MCP calculate_report and explain_matching (asked about a sale of a security that is itself covered, when there is one); covered => success with output; uncovered => non-zero exit, empty stdout, no --output file, error naming security and ISO date, MCP error response; non-trivial = the ledger is uncovered; distinct by DSL hash";
 
 pub fn check_c05_front(c: &crate::props::c05::Case, obs: &mut Obs) -> Verdict {
     let ledger = crate::props::c05::mutate(c);
@@ -718,6 +718,32 @@ pub fn check_c05_front(c: &crate::props::c05::Case, obs: &mut Obs) -> Verdict {
             let e = o.stderr_s();
             if !uncovered.iter().any(|(k, d)| e.contains(k.as_str()) && e.contains(d.as_str())) {
                 return Verdict::fail(format!("{fmt}: error does not name an uncovered security and date {uncovered:?}: {e}"));
+            }
+        }
+    }
+    // MCP explain_matching is a front-end too: asked about any sale of the ledger (preferably one
+    // of a security that is itself covered), it must refuse an uncovered ledger as a whole
+    let sells: Vec<(String, String)> = {
+        let mut v: Vec<(String, String)> = ledger.iter().filter(|t| matches!(t.op, crate::led::Op::Sell { .. })).map(|t| (t.ticker.to_uppercase(), t.date.to_string())).collect();
+        v.sort();
+        v.dedup();
+        v
+    };
+    let other: Vec<&(String, String)> = sells.iter().filter(|(k, _)| !uncovered.iter().any(|(u, _)| u == k)).collect();
+    let pick = if !other.is_empty() { Some(other[c.idx as usize % other.len()].clone()) } else if !sells.is_empty() { Some(sells[c.idx as usize % sells.len()].clone()) } else { None };
+    if let Some((tk, date)) = pick {
+        obs.class_if(!covered && !other.is_empty(), "explain_asked_about_a_covered_security_of_an_uncovered_ledger");
+        match mcp_one("explain_matching", serde_json::json!({"transactions": dsl, "ticker": tk, "disposal_date": date})) {
+            Err(e) => return Verdict::fail(e),
+            Ok(Ok(text)) => {
+                if !covered {
+                    return Verdict::fail(format!("MCP explain_matching({tk}, {date}) returned an explanation for an uncovered ledger (uncovered: {uncovered:?}): {}\n{dsl}", text.chars().take(200).collect::<String>()));
+                }
+            }
+            Ok(Err(msg)) => {
+                if covered {
+                    return Verdict::fail(format!("MCP explain_matching({tk}, {date}) refused a covered ledger: {msg}\n{dsl}"));
+                }
             }
         }
     }
